@@ -397,7 +397,15 @@ fn main() {
                 let term = format!(
                     "(mk_case [{}] {} {} {} [{}] [{}] [{}] false)%nat",
                     segs.join("; "),
-                    dagrepo::coq_nats(&vis),
+                    format!(
+                        "{} {}",
+                        dagrepo::coq_graph(&dagrepo::graph_of(repo.as_ref(), &order).0),
+                        dagrepo::coq_nats(&{
+                            let mut hs: Vec<usize> = repo.view().heads().iter().map(|id| pos[id]).collect();
+                            hs.sort_unstable();
+                            hs
+                        })
+                    ),
                     match &dis {
                         Some(d) => format!(
                             "(Some [{}])",
@@ -437,7 +445,7 @@ fn main() {
                     }
                 }
                 None => dagrepo::CaseOut {
-                    term: "(mk_case [] [] None None [] [] [] true)".to_string(),
+                    term: "(mk_case [] [] [] None None [] [] [] true)".to_string(),
                     nontrivial: false,
                     shape: "panic".to_string(),
                     panicked: true,
